@@ -321,7 +321,7 @@ func (e *Env) handlerOps(i int, tn string, stream grpc.ServerStream, ops []strin
 	ctx := stream.Context()
 	for _, op := range ops {
 		switch {
-		case op == "r" || op == "r*":
+		case op == "r" || op == "r*" || op == "r!":
 			for {
 				var m Msg
 				rr.SrvRecvStarted++
@@ -334,7 +334,10 @@ func (e *Env) handlerOps(i int, tn string, stream grpc.ServerStream, ops []strin
 					rr.SrvRecv = append(rr.SrvRecv, string(m.Payload))
 					e.monitorPrefix(i, "srv")
 				}
-				if op == "r" || err != nil {
+				if op == "r!" && err != nil {
+					return err // as generated code does: a failed receive ends the handler with that error
+				}
+				if op == "r" || op == "r!" || err != nil {
 					break
 				}
 			}
